@@ -63,14 +63,16 @@ def execute(scen, strict, chooser, alphabet, fixed=None):
                 loop = asyncio.get_running_loop()
                 w = run.world
                 now = math.ceil(max(loop.time(), 1e-12) / f) if scen.get("rt_factor") else 0
-                t = {"now": now, "now+1": now + 1, "now+2": now + 2, "until-1": w.until - 1,
+                t = target if isinstance(target, int) else \
+                    {"now": now, "now+1": now + 1, "now+2": now + 2, "until-1": w.until - 1,
                      "until": w.until, "until+3": w.until + 3}[target]
                 # "now" = the tick that is running (its due time rt_factor*t is still ahead)
                 if scen.get("rt_factor") and target == "now" and not (
                         t * f > loop.time() + 1e-9 and t < w.until):
                     run.ev("EV", stub.sid, t, "skipped-not-future")
                     return
-                if scen.get("rt_factor") and target.startswith(("now+", "until-1")) and t <= now:
+                if scen.get("rt_factor") and (isinstance(target, int) or
+                                              target.startswith(("now+", "until-1"))) and t <= now:
                     run.ev("EV", stub.sid, t, "skipped-not-future")
                     return
                 nlog = len(run.logs)
@@ -270,6 +272,14 @@ def event_scenarios(tier):
             out.append((f"rt_evT_{at}_{tg}", dict(rt_factor=1, until=until,
                                                   sims=[T("A", 2, set_events=True)], conns=[],
                                                   events=[("A", at, tg)]), [0, 1.5]))
+    # three and four pending events requested in every order (the simulator's step queue holds
+    # several entries at once, inserted out of order)
+    for times in list(itertools.permutations((2, 4, 6))) + list(itertools.permutations((2, 3, 5, 6)))[::3]:
+        tag = "".join(map(str, times))
+        out.append((f"rt_ev3_{tag}", dict(rt_factor=1, until=8, sims=sims, conns=conns,
+                                          events=[("A", 0.25 + 0.05 * i, t) for i, t in enumerate(times)]), [0]))
+        out.append((f"rt_ev3T_{tag}", dict(rt_factor=1, until=8, sims=[T("A", 3, set_events=True)], conns=[],
+                                           events=[("A", 0.25 + 0.05 * i, t) for i, t in enumerate(times)]), [0]))
     # the simulator that receives the event sits in a group (one and two levels deep), alone or
     # with a consumer in the same group
     for gname, groups in (("g", {"g": None}), ("h", {"g": None, "h": "g"})):
